@@ -197,7 +197,9 @@ def flow_scenarios(ctx):
                     "steps": [{"key_type": a}, {"key_type": b, "contacts": ["not-valid@example.org"]},
                               {"key_type": b, "contacts": ["a@example.org"]}, {"key_type": b, "contacts": ["d@example.org"]}],
                     "nonce_on_get": True,
-                    "rules": [{"kind": "account", "nth": 0, "answer": {"status": 400, "ctype": "application/problem+json",
+                    # the contact UPDATE is what is refused (the roll-over is preceded by an account query on the same URL)
+                    "rules": [{"kind": "account", "payload_contains": "\"contact\"", "times": 1,
+                               "answer": {"status": 400, "ctype": "application/problem+json",
                                "body": {"type": mockca.ERR + "invalidContact", "detail": "injected"}}}]})
     scs.append({"name": "contacts", "steps": [{"key_type": "ecdsa_p256"}, {"key_type": "ecdsa_p256", "contacts": ["c@example.org"]}],
                 "nonce_on_get": False, "rules": []})
